@@ -259,7 +259,7 @@ def parse_testrun(r, impl):
 
 def run(ctx):
     rng = ctx.rng
-    nfiles = ctx.scale(24, 1500)
+    nfiles = ctx.scale(24, 300)
     max_tests = ctx.scale(4, 5)
     perm_cap = ctx.scale(8, 40)
     ctx.rule = ("files of 2..%d tests + 0..2 shared functions + a recursive helper; test bodies = statements of the "
@@ -358,7 +358,7 @@ def run(ctx):
     # then the whole suite is run in one `garden test f1 f2 …` invocation (both file orders, several `-n`
     # filters): the summary must count EVERY selected test (duplicates of a name included), the `Failed:`
     # lines must be exactly the selected tests that fail in isolation, exit status 1 iff there is one.
-    suites = [gen_suite(rng, k % 2 == 1) for k in range(ctx.scale(10, 200))]
+    suites = [gen_suite(rng, k % 2 == 1) for k in range(ctx.scale(10, 40))]
     sdir = ctx.scratch("suites")
 
     def run_suite(item):
@@ -494,7 +494,7 @@ def run(ctx):
                 corr.append((-1, src_, "", None, None))
                 corr.append((-1, src_, next(n for n in names_ if names_.count(n) > 1), None, None))
     # files with an infinite loop: only with a tick limit
-    loops = [gen_file(rng, max_tests, with_loop=True) for _ in range(ctx.scale(8, 300))]
+    loops = [gen_file(rng, max_tests, with_loop=True) for _ in range(ctx.scale(8, 60))]
     for funs, tests, kinds in loops:
         corr.append((-1, render(funs, tests), "", rng.choice([40, 200, 1000]), rng.choice([None, 4])))
 
